@@ -41,6 +41,9 @@ func extra(args []string) bool {
 	case "fn-storage":
 		fnStorage(argU(args, 1, 1), int(argU(args, 2, 500)))
 		return true
+	case "fn-input":
+		fnInput(argU(args, 1, 1), int(argU(args, 2, 1500)))
+		return true
 	case "fn-codec":
 		fnCodec(argU(args, 1, 1), int(argU(args, 2, 500)))
 		return true
